@@ -408,7 +408,10 @@ func (p *parser) directive() error {
 			p.cursor-- // cursor is advanced when we continue, so roll back one more
 			continue
 		}
-		p.tokens[p.cursor].Text = replaceEnvVars(p.tokens[p.cursor].Text)
+		tkn := &p.tokens[p.cursor]
+		expanded := replaceEnvVars(tkn.Text)
+		tkn.envBreaks += strings.Count(expanded, "\n") - strings.Count(tkn.Text, "\n")
+		tkn.Text = expanded
 		p.block.Tokens[dir] = append(p.block.Tokens[dir], p.tokens[p.cursor])
 	}
 
